@@ -24,16 +24,16 @@ Proof. exact (conj (neg_doc_involutive d) (f_equal calculate (neg_doc_involutive
 Print Assumptions negating_twice_restores.
 
 (* Invoice.Invert (invert_doc: like neg_doc but due-date amounts are kept and the stored totals,
-   with the external rounding, are dropped): the recalculated figures are exactly the negated ones *)
+   are dropped, an external rounding is kept negated): the recalculated figures are exactly the negated ones *)
 Theorem invert_produces_negated_figures d :
-  d_rounding d = None -> drop_dues (calculate (invert_doc d)) = drop_dues (result_neg (calculate d)).
+  drop_dues (calculate (invert_doc d)) = drop_dues (result_neg (calculate d)).
 Proof. exact (invert_doc_negates d). Qed.
 Print Assumptions invert_produces_negated_figures.
 
 (* ... so Invert succeeds (its payable check passes) whenever re-reading the calculated document is a
    fixpoint for payable - C04, which fails only for fixed amounts with excess decimals *)
 Theorem invert_succeeds_on_fixpoints d t0 d1 t1 :
-  calculate d = Totals t0 -> as_input d = Some d1 -> d_rounding d = None ->
+  calculate d = Totals t0 -> as_input d = Some d1 ->
   calculate d1 = Totals t1 -> t_payable t1 = t_payable t0 ->
   exists t2, invert d = Inverted t2 /\ drop_dues (Totals t2) = drop_dues (Totals (totals_neg t1)).
 Proof. exact (invert_succeeds d t0 d1 t1). Qed.
@@ -41,14 +41,13 @@ Print Assumptions invert_succeeds_on_fixpoints.
 
 (* the behaviour before the repair (bases and explicit charge quantities not negated): refuted *)
 Theorem invert_shipped_refuted :
-  exists d, d_rounding d = None /\
-            drop_dues (calculate (invert_doc_shipped d)) <> drop_dues (result_neg (calculate d)).
+  exists d, drop_dues (calculate (invert_doc_shipped d)) <> drop_dues (result_neg (calculate d)).
 Proof.
   exists (mkDoc 2 false [] 1
             [mkLine (mkA 1 0) (mkItem (mkA 10000 2) None []) []
                     [mkLdc (mkA 0 0) (Some (mkA 10 2)) (Some (mkA 5000 2)) None None] [] []]
             [] [] [] [] [] None).
-  split; [reflexivity|]. vm_compute. discriminate.
+  vm_compute. discriminate.
 Qed.
 Print Assumptions invert_shipped_refuted.
 
